@@ -47,6 +47,9 @@ class Row:
         # execute() of `exec_class` the architectural fields `opfields(f)`
         self.opfields = opfields
         self.exec_class = exec_class
+        # exception-generating instructions (SVC, SMC): exc(cpu, f) -> [(condition, kind)], the first true condition names what
+        # the instruction does when its condition passes: kind in 'svc' | 'smc' | 'hyptrap' | 'undef' | 'unpred'
+        self.exc = None
         self.width = WIDTH[iset]
         self.mask = 0
         self.value = 0
